@@ -108,7 +108,11 @@ def _run(mol, fam, nspin, seed, dm):
 
     st = F.feature_settings(fam)
     ml = F.make_mlxc(st, evals=("RBF",), mode="SEP", seed=seed)
-    ks = F.make_ks(mol, ml, nspin=nspin, atom_grid=(20, 50), lmax=4, xmix=0.5, xkernel="GGA_X_PBE", ckernel="GGA_C_PBE")
+    # hydrogen gets smaller radial / angular tables than the other elements (both Lebedev sets are octahedral): per-atom
+    # tables that are looked up by element or by position in the atom list then differ between the atoms that a
+    # permutation exchanges
+    ag = {mol.atom_symbol(i): ((15, 26) if mol.atom_symbol(i) == "H" else (20, 50)) for i in range(mol.natm)}
+    ks = F.make_ks(mol, ml, nspin=nspin, atom_grid=ag, lmax=4, xmix=0.5, xkernel="GGA_X_PBE", ckernel="GGA_C_PBE")
     n, e, v = F.nr(ks, dm)
     feats = None
     ni = ks._numint
@@ -171,12 +175,17 @@ def run_orbit(case):
     if f is not None and f0 is not None:
         # co-moved points: r' = R r + t
         back = (ks.grids.coords - t) @ R  # R^T (r' - t) as row vectors: (r'-t) @ R
-        key0 = {tuple(np.round(c * 1e6).astype(np.int64)): i for i, c in enumerate(coords0)}
-        idx = np.array([key0.get(tuple(np.round(c * 1e6).astype(np.int64)), -1) for c in back])
-        if (idx < 0).any():
-            fails.append({"key": "grid-not-mapped;%s;%s" % (ck, kind), "msg": "%d grid points of the transformed molecule are not images of original grid points" % int((idx < 0).sum())})
+        # nearest original point within 1e-8 Bohr (rounding coordinates to a lattice mis-assigns points that sit on a
+        # rounding boundary)
+        from scipy.spatial import cKDTree
+
+        dist, idx = cKDTree(coords0).query(back, k=1)
+        idx = np.where(dist < 1e-8, idx, -1)
+        w = ks.grids.weights
+        real = w != 0  # alignment padding points carry zero weight and placeholder coordinates that do not move with the molecule
+        if (idx[real] < 0).any():
+            fails.append({"key": "grid-not-mapped;%s;%s" % (ck, kind), "msg": "%d grid points of the transformed molecule are not images of original grid points" % int((idx[real] < 0).sum())})
         else:
-            w = ks.grids.weights
             sel = w > 0
             df = np.abs(f[:, sel] - f0[:, idx[sel]]).max() / (1 + np.abs(f0).max())
             if not df <= 1e-9:
